@@ -663,6 +663,11 @@ func c06GenCase(r *Rng, g c06Gen) *C06Input {
 			for len(op.States) < k && len(op.States) < n {
 				op.States = appendUniq(op.States, state())
 			}
+			if r.Chance(8) && len(op.States) > 0 {
+				// a duplicated state: WhenTime does not parse its states (the
+				// hypothesis NoDup of whentime_partial; known finding 2:632)
+				op.States = append(op.States, op.States[r.Intn(len(op.States))])
+			}
 			for range op.States {
 				op.Times = append(op.Times, uint64(r.Intn(int(maxTick)+3)))
 			}
